@@ -2,6 +2,7 @@ package rules
 
 import (
 	"fmt"
+	"go/token"
 	"go/types"
 	"sort"
 	"strings"
@@ -10,6 +11,7 @@ import (
 
 	"verif/checker/internal/core"
 	"verif/checker/internal/ir"
+	"verif/checker/internal/load"
 )
 
 func init() {
@@ -932,6 +934,8 @@ func queueSummaries(c *core.Ctx, q *queueHelpers) {
 				case a.Op == "faddr" && a.Aux == q.fHead && ir.Same(a.Args[0], qp) && ir.Same(v, node):
 					setHead = true
 				case a.Op == "faddr" && a.Aux == q.fValue:
+				case isTallyStore(c, fn, a, v, qp):
+					// a statistic kept in the queue (its depth, a high-water mark): written, never consulted
 				default:
 					ok, why = false, "unexpected store "+short(a)
 				}
@@ -971,6 +975,7 @@ func queueSummaries(c *core.Ctx, q *queueHelpers) {
 					advHead = true
 				case a.Op == "faddr" && a.Aux == q.fTail && ir.Same(a.Args[0], qp) && v.IsNil():
 					clrTail = true
+				case isTallyStore(c, fn, a, v, qp):
 				default:
 					ok, why = false, "unexpected store "+short(a)+" := "+short(v)
 				}
@@ -1002,4 +1007,107 @@ func queueSummaries(c *core.Ctx, q *queueHelpers) {
 		}
 		c.Check(ok, "queue-discipline", "pipe."+fn.Name(), fn.Pos(), "remove at head", "%s", why)
 	}
+}
+
+
+// isTallyStore: the store updates an integer field of the queue object by a constant (size++ / size--), and that field
+// is a statistic: in the whole package every read of it feeds such an update of the same field, a comparison that
+// feeds another statistic of the same kind, or sits in a String / GoString method. It is never consulted by the queue
+// operations or the pump.
+func isTallyStore(c *core.Ctx, fn *ssa.Function, a, v, qp *ir.Term) bool {
+	if a.Op != "faddr" || len(a.Args) != 1 || !ir.Same(a.Args[0], qp) {
+		return false
+	}
+	if b, isB := fieldTypeOf(fn, a.Aux); !isB || b.Info()&types.IsInteger == 0 {
+		return false
+	}
+	// every read of the field in the package
+	for _, f := range c.W.SourceFuncs(load.Logical(fn.Pkg.Pkg.Path())) {
+		if n := f.Name(); n == "String" || n == "GoString" {
+			continue
+		}
+		for _, b := range f.Blocks {
+			for _, in := range b.Instrs {
+				fa, ok := in.(*ssa.FieldAddr)
+				if !ok || fieldNameOf(fa) != a.Aux || !sameStruct(fa.X.Type(), fn, a.Aux) {
+					continue
+				}
+				for _, r := range *fa.Referrers() {
+					ld, isLd := r.(*ssa.UnOp)
+					if !isLd {
+						continue // stores
+					}
+					for _, u := range *ld.Referrers() {
+						switch x := u.(type) {
+						case *ssa.DebugRef:
+						case *ssa.Call:
+							if sc := x.Call.StaticCallee(); sc == nil || sc.Pkg == nil || sc.Pkg.Pkg.Path() != "sync/atomic" {
+								return false
+							}
+						case *ssa.BinOp:
+							if ir.InAtomicSpinLoop(x.Block()) {
+								continue // compared with a high-water mark inside the gauge's own update loop
+							}
+							if x.Op != token.ADD && x.Op != token.SUB {
+								return false
+							}
+							for _, u2 := range *x.Referrers() {
+								st, isSt := u2.(*ssa.Store)
+								if !isSt {
+									return false
+								}
+								fa2, isFA := st.Addr.(*ssa.FieldAddr)
+								if !isFA || fieldNameOf(fa2) != a.Aux {
+									return false
+								}
+							}
+						default:
+							return false
+						}
+					}
+				}
+			}
+		}
+	}
+	return true
+}
+
+// fieldTypeOf: the basic type of the field named name in the struct some parameter of fn points to.
+func fieldTypeOf(fn *ssa.Function, name string) (*types.Basic, bool) {
+	for _, p := range fn.Params {
+		pt, ok := p.Type().Underlying().(*types.Pointer)
+		if !ok {
+			continue
+		}
+		st, ok := pt.Elem().Underlying().(*types.Struct)
+		if !ok {
+			continue
+		}
+		for i := 0; i < st.NumFields(); i++ {
+			if st.Field(i).Name() == name {
+				b, isB := st.Field(i).Type().Underlying().(*types.Basic)
+				return b, isB
+			}
+		}
+	}
+	return nil, false
+}
+
+func sameStruct(t types.Type, fn *ssa.Function, field string) bool {
+	pt, ok := t.Underlying().(*types.Pointer)
+	if !ok {
+		return false
+	}
+	st, ok := pt.Elem().Underlying().(*types.Struct)
+	if !ok {
+		return false
+	}
+	for _, p := range fn.Params {
+		if pp, isP := p.Type().Underlying().(*types.Pointer); isP {
+			if types.Identical(pp.Elem().Underlying(), st) {
+				return true
+			}
+		}
+	}
+	return false
 }
